@@ -7,6 +7,19 @@
  *   rt D SEP t1 t2 ..  join, then split the result with D
  *   words S            num_words, then get_word(i) / get_pword(i) for i = 0 .. n+1
  *   splitbig D UNIT K  split of UNIT repeated K times: count, first and last token
+ *   tokobj S0 ; op ; op ...   ONE tok object through a history.  S0 = hex source (spif_tok_new_from_ptr) or N
+ *                      (spif_tok_new, no source).  Operations:
+ *                        src H | src N      spif_tok_set_src(tk, spif_str_new_from_ptr(H)) / (tk, NULL)
+ *                        sep H | sep N      spif_tok_set_sep likewise
+ *                        q XX | dq XX | esc XX   spif_tok_set_quote / _dquote / _escape (one hex byte)
+ *                        eval               spif_tok_eval(tk); prints "F" or the token list "T n t1 .. tn" and, while
+ *                                           the quote characters are the defaults, " / " and spiftool_split() of the
+ *                                           CURRENT source with the CURRENT separators
+ *                        dup                c = spif_tok_dup(tk); spif_tok_del(tk); tk = c; prints "D " and c's list
+ *                                           ("U" = tokens member NULL)
+ *                        fork               c = spif_tok_dup(tk); eval c and print as eval does; spif_tok_del(c)
+ *                        done               spif_tok_done(tk)
+ *                      The printed parts are separated by " ; ".
  */
 #define main lv_common_main_unused
 #include "common.h"
@@ -37,9 +50,95 @@ static void free_tokens(spif_charptr_t *sl)
     free(sl);
 }
 
+/* the token list of a tok object as it stands: "T n t1 .. tn", "U" when the member is NULL */
+static void put_tok_list(spif_tok_t tk)
+{
+    spif_list_t l = SPIF_TOK_LIST(tk);
+    spif_listidx_t cnt, i;
+    if (SPIF_LIST_ISNULL(l)) { putchar('U'); return; }
+    cnt = SPIF_LIST_COUNT(l);
+    printf("T %lu", (unsigned long) cnt);
+    for (i = 0; i < cnt; i++) {
+        spif_str_t e = (spif_str_t) SPIF_LIST_GET(l, i);
+        const char *p = SPIF_STR_ISNULL(e) ? NULL : (const char *) e->s;
+        putchar(' ');
+        if (SPIF_STR_ISNULL(e)) printf("NULLOBJ");
+        else if (!p) putchar('-');
+        else lv_puthex(p, strlen(p));
+    }
+}
+/* evaluate and print; with the default quote characters also what split says about the same source and separators */
+static void eval_and_put(spif_tok_t tk)
+{
+    if (!spif_tok_eval(tk)) { putchar('F'); return; }
+    put_tok_list(tk);
+    if (tk->quote == '\'' && tk->dquote == '\"' && tk->escape == '\\' && !SPIF_STR_ISNULL(tk->src)) {
+        const char *sp = (const char *) SPIF_STR_STR(tk->src);
+        char *s = (char *) malloc(strlen(sp ? sp : "") + 1), *d = NULL;
+        spif_charptr_t *sl;
+        strcpy(s, sp ? sp : "");
+        if (!SPIF_STR_ISNULL(tk->sep)) {
+            const char *dp = (const char *) SPIF_STR_STR(tk->sep);
+            d = (char *) malloc(strlen(dp ? dp : "") + 1);
+            strcpy(d, dp ? dp : "");
+        }
+        sl = spiftool_split((spif_charptr_t) d, (spif_charptr_t) s);
+        printf(" / ");
+        put_tokens(sl);
+        free_tokens(sl); free(s); free(d);
+    }
+}
+static spif_str_t str_arg(const char *h)
+{
+    /* the object copies the text: the caller's exactly sized buffer is freed at once */
+    char *b;
+    spif_str_t r;
+    if (h[0] == 'N' && !h[1]) return (spif_str_t) NULL;
+    b = lv_unhex_str(h);
+    r = spif_str_new_from_ptr((spif_charptr_t) b);
+    free(b);
+    return r;
+}
+static void run_tokobj(int n, char **t)
+{
+    spif_tok_t tk;
+    int i = 2, first = 1;
+    if (n < 2) { printf("HARNESS-ERROR:bad-case"); return; }
+    if (t[1][0] == 'N' && !t[1][1]) tk = spif_tok_new();
+    else { char *b = lv_unhex_str(t[1]); tk = spif_tok_new_from_ptr((spif_charptr_t) b); free(b); }
+    if (SPIF_TOK_ISNULL(tk)) { printf("NEW-NULL"); return; }
+    while (i < n) {
+        const char *op;
+        if (strcmp(t[i], ";") || i + 1 >= n) { printf(" HARNESS-ERROR:bad-case"); break; }
+        op = t[i + 1];
+        i += 2;
+        if (!strcmp(op, "src") && i < n) spif_tok_set_src(tk, str_arg(t[i++]));
+        else if (!strcmp(op, "sep") && i < n) spif_tok_set_sep(tk, str_arg(t[i++]));
+        else if (!strcmp(op, "q") && i < n) spif_tok_set_quote(tk, (spif_char_t) strtol(t[i++], NULL, 16));
+        else if (!strcmp(op, "dq") && i < n) spif_tok_set_dquote(tk, (spif_char_t) strtol(t[i++], NULL, 16));
+        else if (!strcmp(op, "esc") && i < n) spif_tok_set_escape(tk, (spif_char_t) strtol(t[i++], NULL, 16));
+        else if (!strcmp(op, "done")) spif_tok_done(tk);
+        else if (!strcmp(op, "eval") || !strcmp(op, "fork") || !strcmp(op, "dup")) {
+            if (!first) printf(" ; ");
+            first = 0;
+            if (op[0] == 'e') eval_and_put(tk);
+            else {
+                spif_tok_t c = spif_tok_dup(tk);
+                if (SPIF_TOK_ISNULL(c)) { printf("DUP-NULL"); continue; }
+                if (op[0] == 'f') { eval_and_put(c); spif_tok_del(c); }
+                else { spif_tok_del(tk); tk = c; printf("D "); put_tok_list(tk); }
+            }
+        } else { printf(" HARNESS-ERROR:bad-case"); break; }
+    }
+    if (first) putchar('-');
+    spif_tok_del(tk);
+}
+
 static void run_case(int n, char **t)
 {
-    if (n == 3 && !strcmp(t[0], "split")) {
+    if (n >= 2 && !strcmp(t[0], "tokobj")) {
+        run_tokobj(n, t);
+    } else if (n == 3 && !strcmp(t[0], "split")) {
         char *d = dset(t[1]), *s = lv_unhex_str(t[2]);
         spif_charptr_t *sl = spiftool_split((spif_charptr_t) d, (spif_charptr_t) s);
         put_tokens(sl);
@@ -213,7 +312,14 @@ int main(int argc, char **argv)
             _exit(0);
         }
         close(pfd[1]);
-        while ((r = read(pfd[0], err + el, sizeof(err) - 1 - el)) > 0) el += (size_t) r;
+        /* drain the child's stderr to its end (a child that is left with a closed pipe dies of SIGPIPE on its next
+           trace line: with LV_DEBUG_LEVEL set every refused call logs one); keep the tail, where a report would be */
+        for (;;) {
+            if (el > sizeof(err) - 1 - 4096) { memmove(err, err + el - 8192, 8192); el = 8192; }
+            r = read(pfd[0], err + el, sizeof(err) - 1 - el);
+            if (r <= 0) break;
+            el += (size_t) r;
+        }
         err[el] = 0;
         close(pfd[0]);
         while (waitpid(pid, &status, 0) < 0) ;
